@@ -9,7 +9,6 @@ package main
 // harness with the race detector.
 
 import (
-	"sync/atomic"
 	"bytes"
 	"encoding/binary"
 	"encoding/json"
@@ -19,6 +18,7 @@ import (
 	"sort"
 	"strings"
 	"sync"
+	"sync/atomic"
 	"time"
 
 	"github.com/absfs/absnfs"
@@ -391,6 +391,106 @@ func checkC29(r *Result, rng *rand.Rand, thorough bool) {
 		storm = 4 * time.Second
 	}
 	dirCacheStorm(r, storm)
+	minimalTTLStorm(r, storm+600*time.Millisecond)
+}
+
+// minimalTTLStorm: with an attribute-cache TTL of 1 ns every cache read finds an expired entry, so the expiry path of
+// the cache runs on every request; eight clients sharing one directory (GETATTR of it, LOOKUPs in it, CREATE/REMOVE of
+// their own names) drive that path from many goroutines at once. A map corrupted by an unsynchronised write makes the
+// Go runtime abort the process ("concurrent map writes"), which no recover can stop — so the storm runs in a child
+// process and the parent reports how it ended.
+func minimalTTLStorm(r *Result, dur time.Duration) {
+	lines, stderr, finished := runChild("c29-ttl-storm", fmt.Sprint(int64(dur/time.Millisecond)))
+	r.noteCase("minimal-ttl-storm", true)
+	for _, l := range lines {
+		var n int
+		if _, err := fmt.Sscanf(l, "requests %d", &n); err == nil {
+			r.Histogram["minimal-ttl-storm-requests"] += n
+		}
+	}
+	if finished && len(lines) >= 2 && lines[len(lines)-2] == "ok" {
+		return
+	}
+	what := "the server process died while eight clients shared a directory under a 1 ns attribute-cache TTL"
+	for _, l := range lines {
+		if strings.HasPrefix(l, "bad ") {
+			what = "minimal-TTL storm: " + strings.TrimPrefix(l, "bad ")
+		}
+	}
+	if i := strings.Index(stderr, "fatal error:"); i >= 0 {
+		j := strings.Index(stderr[i:], "\n")
+		if j < 0 {
+			j = len(stderr) - i
+		}
+		what += " (" + stderr[i:i+j] + ")"
+	}
+	r.violate(Violation{Class: "C29/crash-under-concurrency", What: what, Detail: stderr, Ops: []string{"minimal-ttl-storm"}})
+}
+
+func init() {
+	children["c29-ttl-storm"] = func(args []string) {
+		ms := 1000
+		if len(args) > 0 {
+			fmt.Sscan(args[0], &ms)
+		}
+		fs := NewRefFS()
+		seedFS(fs, []string{"mkdir /shared", "file /shared/a " + hx([]byte("a")), "file /shared/b " + hx([]byte("b"))})
+		s, err := newSrv(fs, absnfs.ExportOptions{AttrCacheTimeout: time.Nanosecond})
+		if err != nil {
+			fmt.Println("bad new: " + err.Error())
+			return
+		}
+		absnfs.VerifClockOff()
+		root, _ := s.Mount("/")
+		dir, st := s.Lookup(root, "shared", rootCred())
+		if st != 0 {
+			fmt.Println("bad lookup of the shared directory")
+			return
+		}
+		stop := time.Now().Add(time.Duration(ms) * time.Millisecond)
+		var wg sync.WaitGroup
+		var total int64
+		var badMu sync.Mutex
+		bad := ""
+		for g := 0; g < 8; g++ {
+			wg.Add(1)
+			go func(g int) {
+				defer wg.Done()
+				name := []byte(fmt.Sprintf("own%d", g))
+				n := 0
+				for i := 0; time.Now().Before(stop); i++ {
+					var rep Reply
+					switch i % 5 {
+					case 0:
+						rep = s.NFSCall(1, rootCred(), fh(dir))
+					case 1:
+						rep = s.NFSCall(3, rootCred(), cat(fh(dir), xdrOpaque([]byte("a"))))
+					case 2:
+						rep = s.NFSCall(8, rootCred(), cat(fh(dir), xdrOpaque(name), u32(0), Sattr{}.enc()))
+					case 3:
+						rep = s.NFSCall(3, rootCred(), cat(fh(dir), xdrOpaque(name)))
+					default:
+						rep = s.NFSCall(12, rootCred(), cat(fh(dir), xdrOpaque(name)))
+					}
+					n++
+					if rep.Err != nil || rep.Status != 0 || rep.AcceptStatus != 0 || len(rep.Data) < 4 || (i%5 < 2 && binary.BigEndian.Uint32(rep.Data) != 0) {
+						badMu.Lock()
+						bad = fmt.Sprintf("request %d of client %d (kind %d) was not answered NFS3_OK: err=%v accept=%d", i, g, i%5, rep.Err, rep.AcceptStatus)
+						badMu.Unlock()
+						break
+					}
+				}
+				atomic.AddInt64(&total, int64(n))
+			}(g)
+		}
+		wg.Wait()
+		fmt.Printf("requests %d\n", total)
+		if bad != "" {
+			fmt.Println("bad " + bad)
+		} else {
+			fmt.Println("ok")
+		}
+	}
 }
 
 // dirCacheStorm: with the directory cache on, four clients list one shared directory without pause while four others
